@@ -86,21 +86,33 @@ pub fn gen_sparse_table(r: &mut R) -> Table {
         }
     }
     let mut n = 0;
+    // in half of the tables, runs of empty columns may be covered by one empty spanning cell (still a regular table: the
+    // row spans the same columns) — such a cell has no width of its own and must vanish with its columns (added after the
+    // seeded change C05-colspan-over-empty-columns-phantom-width was missed)
+    let merge = r.p(50);
     let rows = (0..nrows)
         .map(|_| {
-            (0..cols)
-                .map(|c| {
-                    if empty[c] {
-                        TCell { span: 1, token: String::new(), html: String::new(), nested: false }
-                    } else {
-                        let mut tok = crate::gen::token_name(n);
-                        n += 1;
-                        tok.truncate(1 + r.u(2));
-                        tok.push('y');
-                        TCell { span: 1, token: tok.clone(), html: tok, nested: false }
+            let mut row = Vec::new();
+            let mut c = 0;
+            while c < cols {
+                if empty[c] {
+                    let mut k = 1;
+                    while c + k < cols && empty[c + k] {
+                        k += 1;
                     }
-                })
-                .collect()
+                    let span = if merge && k >= 2 && r.p(60) { 2 + r.u(k - 1) } else { 1 };
+                    row.push(TCell { span, token: String::new(), html: if span > 1 && r.p(25) { " ".into() } else { String::new() }, nested: false });
+                    c += span;
+                } else {
+                    let mut tok = crate::gen::token_name(n);
+                    n += 1;
+                    tok.truncate(1 + r.u(2));
+                    tok.push('y');
+                    row.push(TCell { span: 1, token: tok.clone(), html: tok, nested: false });
+                    c += 1;
+                }
+            }
+            row
         })
         .collect();
     Table { cols, rows, thead: false }
